@@ -19,6 +19,25 @@ MARGIN = F(1, 10 ** 9)            # decisions closer than this to a threshold ar
 TOL = 1e-9                        # float vs exact comparison
 
 
+def eps_ratio(eps):
+    """Exact (num, den) of the double passed as eps, None for the default."""
+    if eps is None:
+        return None
+    f = F(float(eps))
+    return (f.numerator, f.denominator)
+
+
+def tolerances(case):
+    """(caller's eps, bin width of _Position2Tuple (0 = exact mode), decision margin) as Fractions, for case['eps']
+    (None = default).  Cases flagged 'dyadic' are computed without any round-off by the implementation: margin 0."""
+    eps = case.get("eps")
+    e = 1.0e-5 if eps is None else float(eps)
+    b = (e + 1.0) - 1.0
+    if b == 0.0 or 1.0 / b > 2 ** 63 - 1:
+        b = 0.0
+    return F(e), F(b), (F(0) if case.get("dyadic") else MARGIN)
+
+
 def lcm(a, b):
     return a * b // gcd(a, b)
 
@@ -75,21 +94,22 @@ def stabiliser(ops, off, x):
 
 
 class FastOps(object):
-    """Integer (numpy) form of the operations on the grid D0 for quick exact stabilisers."""
+    """Integer (numpy) form of the operations on a grid (default D0) for quick exact stabilisers."""
 
-    def __init__(self, ops):
+    def __init__(self, ops, grid=None):
         self.ops = ops
-        self.ok = all(D0 % c.denominator == 0 for _, t in ops for c in t)
+        self.grid = grid or D0
+        self.ok = all(self.grid % c.denominator == 0 for _, t in ops for c in t)
         if self.ok:
             self.R = numpy.array([R for R, _ in ops], dtype=numpy.int64).reshape(-1, 3, 3)
-            self.t = numpy.array([[int(c * D0) for c in t] for _, t in ops], dtype=numpy.int64)
+            self.t = numpy.array([[int(c * self.grid) for c in t] for _, t in ops], dtype=numpy.int64)
 
     def stabiliser(self, x):
         """Exact stabiliser of x (unshifted origin)."""
-        if not self.ok or any(D0 % c.denominator for c in x):
+        if not self.ok or any(self.grid % c.denominator for c in x):
             return stabiliser(self.ops, (F(0),) * 3, x)
-        k = numpy.array([int(c * D0) for c in x], dtype=numpy.int64)
-        y = (self.R @ k + self.t - k) % D0
+        k = numpy.array([int(c * self.grid) for c in x], dtype=numpy.int64)
+        y = (self.R @ k + self.t - k) % self.grid
         return [int(i) for i in numpy.nonzero(numpy.all(y == 0, axis=1))[0]]
 
 
@@ -159,12 +179,22 @@ def grid_strata(ops, rng, n=24):
     return out
 
 
-def fixed_set_strata(ops, rng, shifts=(-1, 0, 1), digits=4):
+def is_dyadic(q):
+    d = q.denominator
+    return d & (d - 1) == 0
+
+
+def dyadic_group(ops):
+    """All translations are dyadic: with dyadic sites every image is computed without round-off."""
+    return all(is_dyadic(c) for _, t in ops for c in t)
+
+
+def fixed_set_strata(ops, rng, shifts=(-1, 0, 1), digits=4, dyadic=False):
     """Generic rational points on the fixed-point sets {x | (R-I)x = n - t} of every operation and
     lattice shift n, classified by their exact stabiliser.  {stab tuple: point}"""
     out = {}
     seen = set()
-    fast = FastOps(ops)
+    fast = FastOps(ops, 12 * 2 ** 24 if dyadic else None)
     for R, t in ops[1:]:
         A = tuple(R[j] - (1 if j in (0, 4, 8) else 0) for j in range(9))
         for n in itertools.product(shifts, repeat=3):
@@ -180,9 +210,15 @@ def fixed_set_strata(ops, rng, shifts=(-1, 0, 1), digits=4):
             seen.add(key)
             x = list(x0)
             for bvec in basis:
-                s = F(rng.randrange(10 ** (digits - 1) + 7, 10 ** digits - 7), 10 ** digits)
+                if dyadic:
+                    # 18-bit parameters: the coordinate lies at a random place inside its 1e-5 bin
+                    s = F(2 * rng.randrange(13108, 117964) + 1, 2 ** 18)
+                else:
+                    s = F(rng.randrange(10 ** (digits - 1) + 7, 10 ** digits - 7), 10 ** digits)
                 x = [a + s * c for a, c in zip(x, bvec)]
             x = red(tuple(x))
+            if dyadic and not all(is_dyadic(c) for c in x):
+                continue
             st = tuple(fast.stabiliser(x))
             if len(st) > 1 and st not in out:
                 out[st] = x
@@ -233,8 +269,8 @@ def perturb_outside(rng):
     return tuple(rng.choice((-1, 1)) * c for c in comps)
 
 
-def make_case(si, kind, x, off, ref, stratum=None):
-    den = D0
+def make_case(si, kind, x, off, ref, stratum=None, base=None):
+    den = base or D0
     for v in tuple(x) + tuple(off) + tuple(ref):
         den = lcm(den, v.denominator)
     return {"si": si, "D": den, "kind": kind, "stratum": stratum,
@@ -286,6 +322,59 @@ def cases_for_site(si, rng, x0, stratum, variants):
     return out
 
 
+def dyadic_disp(rng, bits):
+    """Displacement of +-2^-bits in one to three coordinates."""
+    while True:
+        d = tuple(F(rng.choice((-1, 0, 1)), 2 ** bits) for _ in range(3))
+        if any(d):
+            return d
+
+
+def dyadic_offset(rng):
+    """Origin offset like 2^-9 + 2^-19: moves positions at 0, 1/2, 1/4 (which sit on bin edges) to mid-bin."""
+    return tuple(F(rng.choice((0, 1, 1)) * (2 * rng.randrange(1, 2 ** 11) + 1), 2 ** 19) for _ in range(3))
+
+
+def eps_cases_for_site(si, rng, x0, stratum, variants):
+    """The `eps` argument as an input dimension, on a dyadic site x0 of a group with dyadic translations (the
+    implementation then computes every image without round-off: exact comparison, margin 0)."""
+    zero = (F(0),) * 3
+    out = []
+
+    def mk(kind, eps, x, off, ref):
+        c = make_case(si, kind, x, off, ref, stratum, base=12)
+        c["eps"] = eps
+        c["dyadic"] = True
+        out.append(c)
+    for v in variants:
+        if v == "eps0-exact":
+            mk(v, 0.0, x0, zero, x0)
+        elif v == "eps0-off":
+            x = vadd(x0, dyadic_disp(rng, 22))
+            mk(v, 0.0, x, zero, x)
+        elif v == "eps0-off+offset":
+            off = dyadic_offset(rng)
+            x = vadd(vadd(vsub(x0, off), dyadic_disp(rng, 22)), rand_shift(rng) if rng.random() < 0.5 else zero)
+            mk(v, 0.0, x, off, x)
+        elif v == "eps1e-7-off":
+            x = vadd(x0, dyadic_disp(rng, 22))
+            mk(v, 1.0e-7, x, zero, x)
+        elif v == "eps1e-7-in":
+            mk(v, 1.0e-7, vadd(x0, dyadic_disp(rng, 26)), zero, x0)
+        elif v == "eps1e-3-in":
+            mk(v, 1.0e-3, vadd(x0, dyadic_disp(rng, 13)), zero, x0)
+        elif v == "eps1e-3-in+offset":
+            off = dyadic_offset(rng)
+            xs = vsub(x0, off)
+            mk(v, 1.0e-3, vadd(xs, dyadic_disp(rng, 13)), off, xs)
+        else:
+            raise ValueError(v)
+    return out
+
+
+EPS_VARIANTS = ["eps0-exact", "eps0-off", "eps0-off+offset", "eps1e-7-off", "eps1e-7-in", "eps1e-3-in", "eps1e-3-in+offset"]
+
+
 # --- exact analysis of a case: expected result + robustness margins ---------------------------------
 def pbox(a, b, Dn):
     """Pairwise periodic box distances (grid units) between integer arrays a (n,3) and b (m,3)."""
@@ -316,26 +405,30 @@ def analyse(ops, case):
         cl[f] = j
     bd = pbox(P, P, Dn)
     same = cl[:, None] == cl[None, :]
-    m = float(MARGIN) * Dn
-    eq = float(EPS_EQ) * Dn
-    eb = float(EPS_B) * Dn
-    within = bd[same].max() if same.any() else 0
-    between = bd[~same].min() if (~same).any() else None
-    if within > eq - m:
+    EQ, EB, MG = tolerances(case)
+    fl = lambda q: q.numerator // q.denominator        # noqa  exact floor of a Fraction
+    within = int(bd[same].max()) if same.any() else 0
+    between = int(bd[~same].min()) if (~same).any() else None
+    # within <= (eps - margin) D   and   between > (max(eps, bin) + margin) D, decided in integers
+    if within > fl((EQ - MG) * Dn):
         res["judged"], res["why_not"] = False, "images of one special position spread wider than the tolerance"
-    if between is not None and between <= max(eq, eb) + m:
+    if between is not None and between <= fl((max(EQ, EB) + MG) * Dn):
         res["judged"], res["why_not"] = False, "distinct images closer than the tolerance (margin < 1e-9)"
     # fragility of the model-vs-implementation comparison (float rounding could flip a decision)
+    m = float(MG) * Dn
+    eq = float(EQ) * Dn
+    eb = float(EB) * Dn
     nz = bd > 0
-    if nz.any():
-        if (numpy.abs(bd[nz] - eq) < m).any() or (numpy.abs(bd[nz] - eb) < m).any():
+    if nz.any() and MG > 0:
+        if (numpy.abs(bd[nz] - eq) < m).any() or (EB > 0 and (numpy.abs(bd[nz] - eb) < m).any()):
             res["fragile"] = True
-        close = nz & (bd <= eb + m)
+        close = nz & (bd <= max(eq, eb) + m)
         if close.any():
             rows = numpy.nonzero(close.any(axis=1))[0]
-            u = P[rows].astype(float) / Dn / float(EPS_B)
-            if (numpy.abs(u - numpy.rint(u)) * float(EPS_B) < float(MARGIN)).any():
-                res["fragile"] = True
+            if EB > 0:
+                u = P[rows].astype(float) / Dn / float(EB)
+                if (numpy.abs(u - numpy.rint(u)) * float(EB) < float(MG)).any():
+                    res["fragile"] = True
             for r in rows:
                 dd = numpy.unique(bd[r][close[r]])
                 if len(dd) > 1 and (numpy.diff(dd) < m).any():
